@@ -1443,7 +1443,8 @@ def check(rep):
     rep.cov['evaluations'] = len(allc) + rep.cov.get('tunnel_matched_cases', 0) + rep.cov.get('namedec_contract_cases', 0)
     rep.cov['distinct_nontrivial'] = len(set(allc))
     rep.cov['samples'] = [c[:300] for c in (dcases[:2] + dcases[len(dcases) // 2:len(dcases) // 2 + 2] + tcases[:1] + hcases[:2] + gcases[:2])]
-    rep.cov['traces_validated_against_impl'] = rep.cov.get('decoder_model_agreement', 0) + rep.cov.get('tunnel_model_agreement', 0)
+    rep.cov['traces_validated_against_impl'] = (rep.cov.get('decoder_model_agreement', 0) + rep.cov.get('tunnel_model_agreement', 0) +
+                                                rep.cov.get('handshake_model_agreement', 0))
     rep.cov['finding_counts'] = findings.counts
     rep.cov['trusted_base'] = rep.cov.get('trusted_base', []) + [
         'gcc 12 -O1 -fsanitize=address,undefined (ASan halts; UBSan recovers in the handshake builds so that all reports are collected)',
